@@ -6,7 +6,7 @@ compared with R3 (flat memory) for values and R4 (tag-only reference cache) for 
 resident tags; the C12 invariant is evaluated at the quiescent point after every operation."""
 import copy
 
-from ..common import guarded, Result, rng_for, h64, make_riscv, install_program, set_regs, preload_mem, real_regs, M32
+from ..common import guarded, Result, rng_for, h64, make_riscv, install_program, set_regs, preload_mem, real_regs, M32, instr_text
 from ..refmodels.refcache import FlatMem, RefCache
 from ..refmodels.rv32 import SeqRef, LOADS, STORES
 from ..refmodels.timed5 import TimedRef
@@ -41,6 +41,8 @@ def plan(prop, tier, seed):
         sh += [{"kind": "bfs", "depth": 4 if q else 6, "cfgi": i, "shard": i} for i in range(10)]
     if prop == "C09":
         sh += [{"kind": "bfs", "depth": 4 if q else 6, "cfgi": i, "shard": i, "acct": True} for i in range(10)]
+    if prop == "C12":
+        sh += [{"kind": "simpolicy", "n": 150 if q else 2500, "shard": i} for i in range(4 if q else 12)]
     if prop in ("C03", "C09"):
         sh += [{"kind": "prog", "n": 90 if q else 1500, "shard": i} for i in range(6 if q else 16)]
         sh += [{"kind": "asmprog", "n": 40 if q else 700, "shard": i} for i in range(3 if q else 8)]
@@ -950,7 +952,76 @@ def directed_cases():
     return D
 
 
+def run_simpolicy_case(case, res):
+    """C12 inside a running simulation: the data cache is configured through CacheOptions ("wt" / "wb" strings, as the
+    UI does), a single-cycle simulation runs in lockstep with the sequential reference (which supplies the LOGICAL
+    memory contents without touching the cache), and after every step the configured write policy's invariant is
+    evaluated on the backing Memory, the public cache representation and the memory table."""
+    prog = {4 * i: d for i, d in enumerate(case["prog"])}
+    cfg = case["dcache"]
+    wt = cfg["wt"]
+    ref = SeqRef(prog, case["regs"], case["mem"])
+    sim = make_riscv("single", dcache=cfg)
+    install_program(sim, case["prog"])
+    set_regs(sim, case["regs"])
+    preload_mem(sim, case["mem"])
+    m = sim.state.memory
+    back = m.memory
+    k = 0
+    evictions = 0
+    prev_res = set()
+    while not ref.done() and k < case["max_instr"]:
+        pc0 = ref.pc
+        try:
+            ref.step()
+        except Exception:
+            return  # golden fault: nothing to judge here
+        try:
+            sim.step()
+        except Exception:
+            return  # (a fault the reference does not have is C01/C03's finding)
+        k += 1
+        res.count("sim_policy_steps")
+        tags, words, dirty = resident_view(m)
+        if prev_res - set(words):
+            evictions += 1
+        prev_res = set(words)
+        tab = {int(a_): int(t_[1]) for (a_, _h), t_ in sim.get_data_memory_entries()}
+        touched = {a & ~3 for a in ref.mem.b}
+        for a in touched:
+            lg = ref.mem.rd(a, 4)
+            bk = int(back.read_word(a))
+            where = "step %d (%s), %s configured" % (k, instr_text(prog[pc0]) if pc0 in prog else "?", "write-through" if wt else "write-back")
+            if wt:
+                if bk != lg:
+                    res.violation("C12", "wt-backing-stale", "%s: backing word %#x = %#x, logical %#x" % (where, a, bk, lg), case)
+                    return
+                if a in words and words[a] != bk:
+                    res.violation("C12", "wt-resident-differs", "%s: resident word %#x = %#x, backing %#x" % (where, a, words[a], bk), case)
+                    return
+                if tab.get(a, 0) != lg:
+                    res.violation("C12", "memory-table-stale", "%s: the memory table shows %#x for word %#x, logical %#x" % (where, tab.get(a, 0), a, lg), case)
+                    return
+            else:
+                if a not in words and bk != lg:
+                    res.violation("C12", "wb-lost-write", "%s: word %#x not resident, backing %#x, logical %#x" % (where, a, bk, lg), case)
+                    return
+                if a in words and words[a] != lg:
+                    res.violation("C12", "wb-resident-stale", "%s: resident word %#x = %#x, logical %#x" % (where, a, words[a], lg), case)
+                    return
+                if a not in words and tab.get(a, 0) != lg:
+                    res.violation("C12", "memory-table-stale", "%s: block not resident, the memory table shows %#x for word %#x, logical %#x" % (where, tab.get(a, 0), a, lg), case)
+                    return
+    res.count("sim_policy_programs")
+    if evictions:
+        res.count("sim_policy_programs_with_evictions")
+        res.nontrivial(h64(case))
+
+
 def run_case(prop, case, res):
+    if case["kind"] == "simpolicy":
+        run_simpolicy_case(case, res)
+        return
     if case["kind"] == "hist":
         run_hist(case, res, prop)
     elif case["kind"] == "prog":
@@ -978,6 +1049,9 @@ def run_shard(spec, res):
             case = gen_history(rng, spec["ops"], acct)
         elif spec["kind"] == "asmprog":
             case = gen_asmprog_case(rng)
+        elif spec["kind"] == "simpolicy":
+            prog, regs = word_ok_program(rng)
+            case = {"kind": "simpolicy", "prog": prog, "regs": regs, "mem": G.init_mem(rng), "dcache": rand_cfg(rng, small=True), "max_instr": 250}
         else:
             prog, regs = word_ok_program(rng)
             case = {"kind": "prog", "prog": prog, "regs": regs, "mem": G.init_mem(rng), "dcache": rand_cfg(rng, small=rng.random() < 0.7), "max_instr": 250}
